@@ -128,7 +128,8 @@ def gen_family(rng, k, thorough):
     if n_out >= 2 and rng.random() < 0.05:
         outs[-1] = outs[0]
         dup_labels = True
-    unknown = [c for c in CUE_LABELS if c not in cues]
+    # cues the weights do not know (the big alphabets can use up CUE_LABELS: fall back to names outside every pool)
+    unknown = [c for c in CUE_LABELS if c not in cues] + ["zz%d" % i for i in range(3)]
     unknown = rng.sample(unknown, 3)
     with_file = k % 2 == 0
     vals = {(i, kk): gen_value(rng, fine=with_file) for i in range(n_out) for kk in range(n_cues)}
